@@ -241,6 +241,14 @@ class SymMap2:
         self.val = val
 
 
+class NdArray3:
+    """numpy int64 array of shape (d0, d1, 3): one z3 array (Int, Int -> Int) per last-axis slot."""
+    def __init__(self, comps, d0, d1):
+        self.comps = tuple(comps)
+        self.d0 = d0
+        self.d1 = d1
+
+
 class RangeV:
     def __init__(self, lo, hi, step=1):
         self.lo, self.hi, self.step = lo, hi, step
